@@ -35,7 +35,8 @@ PROBES = ["fault-answer-no", "fault-echo-other", "fault-garble", "fault-garble-s
           "fault-odd-unlock-value", "fault-short-bank", "fault-foreign-frame", "readonly-refused", "device-addressing",
           "ignore-feedback", "short-string-write", "initially-unlocked", "value-level-write-int", "value-level-write-mask",
           "value-level-write-tmask", "value-level-write-str", "value-level-write-out-of-range", "raw-data-longer-than-the-value",
-          "earlier-calls-in-same-process", "value-level-write-without-conversion", "bank-latch", "bank-unlatch"]
+          "earlier-calls-in-same-process", "value-level-write-without-conversion", "bank-latch", "bank-unlatch",
+          "value-level-write-of-non-ascii-text", "value-level-write-str-bad"]
 DOCUMENTED = (MemoryLocationNotWriteable, MemoryWriteFailure, MemoryWriteError, ResponseError)
 
 
@@ -89,9 +90,13 @@ def gen_base(seed, tier="quick"):
         if is_str:
             sl = r.choice([0, 1, n - 1, n, r.randrange(0, n + 1)])
             opts.append(["str", "".join(chr(r.randrange(0x20, 0x7F)) for _ in range(sl))])
+            # the values are documented as ASCII strings: text that has no ASCII form cannot be written
+            sb = [chr(r.randrange(0x20, 0x7F)) for _ in range(r.randrange(0, max(1, n - 3)))]
+            sb.insert(r.randrange(len(sb) + 1), r.choice(["\u00fc", "\u00e9", "\u20ac", "\u0080", "\u00ff", "\u0100"]))
+            opts.append(["str-bad", "".join(sb)])
         if opts:
             via = r.choice(opts)
-            raw = list(expected_raw(v, via)) if via[0] not in ("int-bad", "noconv") else []
+            raw = list(expected_raw(v, via)) if via[0] not in ("int-bad", "noconv", "str-bad") else []
     elif not ro and v.name != "LockByte" and r.random() < 0.06:
         # more data than the value has locations - with and without allow_short_write: refused before anything is sent
         via = ["raw-too-long", [r.randrange(256) for _ in range(n + r.choice([1, 1, 2, 7]))], r.random() < 0.6]
@@ -289,15 +294,16 @@ def run_plan(plan):
             V("over-long-data-accepted", "%s.%s.write_raw(%d bytes for %d locations, allow_short_write=%s): %s after %d commands" % (
                 key, v.name, len(plan["via"][1]), len(v.locations), plan["via"][2], sr.status, sr.steps),
               site="allow-short-write" if plan["via"][2] else "plain")
-    if plan.get("via") and plan["via"][0] in ("int-bad", "raw-too-long", "noconv"):
-        if plan["via"][0] in ("int-bad", "noconv"):
-            probes["value-level-write-out-of-range" if plan["via"][0] == "int-bad" else "value-level-write-without-conversion"] = 1
+    if plan.get("via") and plan["via"][0] in ("int-bad", "raw-too-long", "noconv", "str-bad"):
+        if plan["via"][0] in ("int-bad", "noconv", "str-bad"):
+            probes[{"int-bad": "value-level-write-out-of-range", "noconv": "value-level-write-without-conversion",
+                    "str-bad": "value-level-write-of-non-ascii-text"}[plan["via"][0]]] = 1
         if plan["via"][0] == "raw-too-long":
             pass
         elif sr.status != "raise":
             V("out-of-range-value-accepted", "%s.%s.write(%r): %s; the %d location(s) now hold %s" % (
                 key, v.name, plan["via"][1], sr.status, len(v.locations),
-                [bank.cells[l.address] for l in v.locations]), site="accepted" if plan["via"][0] == "int-bad" else "no-conversion")
+                [bank.cells[l.address] for l in v.locations]), site={"int-bad": "accepted", "noconv": "no-conversion", "str-bad": "non-ascii"}[plan["via"][0]])
         elif sr.steps:
             V("out-of-range-value-accepted", "%s.%s.write(%r): refused only after %d commands" % (
                 key, v.name, plan["via"][1], sr.steps), site="refused-late")
@@ -359,7 +365,12 @@ def run_plan(plan):
                 key, v.name, fault, [hex(a) for a in others[:6]]), site=fk or "fault-free")
         if other_bank.cells != before[other_bank.number]:
             V("other-bank-changed", "another bank of the unit was modified")
-        lockable = bank.has_lock and any(bank.cell_type(a) in busim.LOCKABLE for a in locs)
+        lockable = bank.has_lock and any(bank.cell_type(l_.address) in busim.LOCKABLE for l_ in v.locations)
+        if not (lockable or plan["force_unlock"]) and 2 not in want and not foreign_fired \
+                and bank.cells[2] != before[bank.number][2]:
+            # a value that no lock protects: its write has no business with the bank's lock / latch byte
+            V("other-location-changed", "%s.%s fault %s: lock byte changed from %#x to %#x by the write of a value that is "
+              "not lockable" % (key, v.name, fault, before[bank.number][2], bank.cells[2]), site="lock-byte")
         if (lockable or plan["force_unlock"]) and bank.number != 0 and not foreign_fired and 2 not in want:
             if bank.cells[2] == 0x55:
                 V("bank-left-unlocked", "%s.%s fault %s: lock byte still 0x55 after a write that returned normally" % (
